@@ -1027,6 +1027,19 @@ class ExperimentTopology(Topology):
         """
         Prune this interface
         """
+        # if the interface (or a sub-interface that goes with it) is connected to a network service,
+        # remove the peer service port (and link) too
+        cp_ids = [i.node_id]
+        if i.type == InterfaceType.DedicatedPort:
+            cp_ids.extend(self.graph_model.get_all_child_connection_points(interface_id=i.node_id))
+        for cp_id in cp_ids:
+            peer_ids = self.graph_model.find_peer_connection_points(node_id=cp_id)
+            if peer_ids is None:
+                continue
+            for peer_id in peer_ids:
+                _, peer_props = self.graph_model.get_node_properties(node_id=peer_id)
+                if peer_props.get(ABCPropertyGraph.PROP_TYPE, None) == str(InterfaceType.ServicePort):
+                    self.graph_model.remove_cp_and_links(node_id=peer_id)
         self.graph_model.remove_cp_and_links(node_id=i.node_id)
 
     def prune(self, reservation_state):
